@@ -278,6 +278,33 @@ def step (st : St) (pre post : List String) : St × Verdict :=
       else if toString r != res then (st, .diff s!"IsAfterCodecUpgrade({hh}) with upgrade height {g}: model={r} impl={res}")
       else (st, .ok)
     | _, _, _, _, _ => (st, .bad "isafter")
+  | ["mapstab", name, full, vx] =>
+    -- one encoding decoded many times: the value and the sign bytes must not depend on map order
+    match post with
+    | [nd, ns, vy, vj] =>
+      match lookupSchema st full with
+      | none => (st, .bad s!"no schema {full}")
+      | some s =>
+        match Text.parseMsg st.reg s vx with
+        | none => (st, .bad s!"cannot parse value of {full}")
+        | some X =>
+          let want := normFields s X
+          if isErr nd || isErr vy then (st, .propfail s!"roundtrip-changed-{name}" s!"proto round trip failed on {short vx}")
+          else if nd != "1" then
+            (st, .propfail "decode-order-dependent" s!"{name}: {nd} different values from decoding the same bytes; in={short vx}")
+          else if ns != "1" then
+            (st, .propfail "signbytes-order-dependent" s!"{name}: {ns} different sign bytes from decoding the same bytes; in={short vx}")
+          else match Text.parseMsg st.reg s vy with
+            | none => (st, .bad "decoded value")
+            | some Y =>
+              if !eqVals Y want then (st, .propfail s!"roundtrip-changed-{name}" s!"proto: in={short vx} out={short vy}")
+              else if isErr vj then (st, .propfail s!"roundtrip-changed-{name}-json" s!"json round trip failed: {short vx}")
+              else match Text.parseMsg st.reg s vj with
+                | none => (st, .bad "json value")
+                | some W =>
+                  if eqVals (normFields s W) want then (st, .ok)
+                  else (st, .propfail s!"roundtrip-changed-{name}-json" s!"json: in={short vx} out={short vj}")
+    | _ => (st, .bad "mapstab")
   | ["jrt", ty, _mode] =>
     -- parameter values (no schema): amino-JSON round trip judged on the harness' canonical rendering
     match post with
